@@ -57,6 +57,16 @@ fn inputs(tier: Tier) -> Vec<(String, Vec<u8>)> {
             }
         }
     }
+    // (ii-b) compression break-even sweeps: k incompressible bytes followed by zeros, every k, for a few
+    // total lengths: somewhere in each sweep the codec output plus the method byte is exactly as long as
+    // the input, the point where "stored raw" must take over
+    for total in [86usize, 128, 300, 512] {
+        for k in 0..=total {
+            let mut d = gen::content("incompressible", k, 4096, 11);
+            d.resize(total, 0);
+            v.push((format!("breakeven total={total} random_prefix={k}"), d));
+        }
+    }
     // (iii) size ladder x texture
     let mut ladder: Vec<usize> = (0..=17).collect();
     let kmax = tier.pick(17, 21);
@@ -106,6 +116,11 @@ impl Space for Main {
         r.nontrivial = !d.is_empty();
         if out.len() > d.len() {
             r.viol(format!("{sname}: stored form is longer than the input"), format!("{} -> {}", d.len(), out.len()));
+            return r;
+        }
+        if out.len() == d.len() && out != *d {
+            // not shrunk, yet not stored raw (readers tell raw from compressed by comparing sizes)
+            r.viol(format!("{sname}: compression did not shrink the data but the stored form is not the raw input"), format!("{} -> {} (method byte {:#04x})", d.len(), out.len(), out[0]));
             return r;
         }
         if out == *d {
